@@ -4,7 +4,7 @@ C10 — A transaction built from a descriptor carries exactly the described valu
 Property theorems over `Model/Sdk/Descriptor.lean` (`create` mirrors `facade.transaction_factory.create /
 create_embedded`: `RuleBasedTransactionFactory.create_from_factory`, `TransactionDescriptorProcessor.copy_to`,
 then the autosort / id autofill / message steps of the two `TransactionFactory` classes). All statements are for
-every configuration `cfg` (schema, rule lists, network), every descriptor, both entry points and both autosort
+every configuration `cfg` (schema, rule lists, network, `type_rule_overrides` table), every descriptor, both entry points and both autosort
 settings; hashes, the comparer transform and UTF-8 validity are universally quantified (`p : Prims`).
 
 Reading guide. `withNetwork cfg desc` is the descriptor the factory really processes (`{**descriptor, 'network':
@@ -243,19 +243,20 @@ theorem unknown_flag_rejected {p : Prims} {cfg : Config} {autosort embedded : Bo
   simp only [coerceAtom, if_true, ruleOf, hfind, enumByName, he]
 
 /-- **Out-of-range numbers are rejected** for every member of an integer type with a name (`Amount`, `Timestamp`,
-    `MosaicNonce`, …: all of them have a parser): an `int` outside the range of the type's width and sign. -/
+    `MosaicNonce`, …: all of them have a parser): an `int` outside the range of the type's width and sign — unless the
+    caller replaced the parser of that type by an override (then the override decides, `override_takes_precedence`). -/
 theorem out_of_range_rejected {p : Prims} {cfg : Config} {autosort embedded : Bool} {desc : List (String × DVal)}
     {key : String} {i : Int} (hmem : (key, .int i) ∈ desc) (hk : key ≠ "type") (hn : key ≠ "network")
     (hpod : ∀ ty d, resolve cfg embedded (withNetwork cfg desc) = .ok (ty, d) →
       ∃ f pty w sg, classify d key = .member f ∧ slotOf f.kind = .ty pty ∧
-        cfg.schema.find pty = some (.int w sg) ∧ inRange w sg i = false) :
+        cfg.schema.find pty = some (.int w sg) ∧ cfg.overrides (.module pty) = none ∧ inRange w sg i = false) :
     ∃ e, create p cfg autosort embedded desc = .error e := by
   apply create_error_of_bad_entry key (.int i) (mem_withNetwork hmem hn)
   intro ty d hr
-  obtain ⟨f, pty, w, sg, hcl, hslot, hfind, hrange⟩ := hpod ty d hr
+  obtain ⟨f, pty, w, sg, hcl, hslot, hfind, hov, hrange⟩ := hpod ty d hr
   apply stepEntry_coerce_error (e0 := .outOfRange pty i) hk hcl
   rw [hslot, coerce_int_eq]
-  simp only [coerceAtom, if_true, ruleOf, hfind, hrange, Bool.false_eq_true, if_false]
+  simp only [coerceAtom, if_true, ruleOf, hfind, hov, hrange, Bool.false_eq_true, if_false]
 
 /-- … and for a flags or enum member an `int` that is no member value / has undeclared bits (flags: unless it is
     negative and within `~all_bits`, which Python's `Flag` reads as a complement — a finding, see the harness). -/
@@ -272,6 +273,23 @@ theorem enum_int_rejected {p : Prims} {cfg : Config} {autosort embedded : Bool} 
   rw [hslot, coerce_int_eq]
   simp only [coerceAtom, if_true, ruleOf, hfind, Bool.false_eq_true, if_false, hadm]
 
+/-- a negative `int` for a flags member is rejected when the flags parser guards against it (`Config.flagsRejectNegative`
+    is read from the source of `add_flags_parser` on every run). Without the guard Python's `Flag` class reads a negative
+    number as a complement (`flagOfInt`): `-1` becomes "all flags" — the recorded finding. -/
+theorem negative_flag_rejected {p : Prims} {cfg : Config} {autosort embedded : Bool} {desc : List (String × DVal)}
+    {key : String} {i : Int} (hmem : (key, .int i) ∈ desc) (hk : key ≠ "type") (hn : key ≠ "network")
+    (hguard : cfg.flagsRejectNegative = true) (hneg : i < 0)
+    (hflags : ∀ ty d, resolve cfg embedded (withNetwork cfg desc) = .ok (ty, d) →
+      ∃ f ety w sg ms, classify d key = .member f ∧ slotOf f.kind = .ty ety ∧
+        cfg.schema.find ety = some (.enum w sg true ms)) :
+    ∃ e, create p cfg autosort embedded desc = .error e := by
+  apply create_error_of_bad_entry key (.int i) (mem_withNetwork hmem hn)
+  intro ty d hr
+  obtain ⟨f, ety, w, sg, ms, hcl, hslot, hfind⟩ := hflags ty d hr
+  apply stepEntry_coerce_error (e0 := .enumValue ety i) hk hcl
+  rw [hslot, coerce_int_eq]
+  simp [coerceAtom, ruleOf, hfind, hguard, hneg]
+
 /-- a member of plain integer type (`version`, `divisibility`, `min_approval_delta`, …) has no parser: `create` stores
     any `int`; the check comes with the integer codec at `serialize()` (`Codec.encInt` is what `Codec.encode` applies to
     such a member), which refuses the value rather than truncating it. -/
@@ -287,15 +305,157 @@ theorem wrong_length_bytes_rejected {p : Prims} {cfg : Config} {autosort embedde
     (hsdk : ∀ ty d, resolve cfg embedded (withNetwork cfg desc) = .ok (ty, d) →
       ∃ f bty n k, classify d key = .member f ∧ slotOf f.kind = .ty bty ∧
         cfg.schema.find bty = some (.bytes n) ∧ cfg.sdkMapping.find? (·.1 == bty) = some (bty, k) ∧
-        sdkSize cfg k ≠ b.length) :
+        cfg.overrides (.sdk k) = none ∧ sdkSize cfg k ≠ b.length) :
     ∃ e, create p cfg autosort embedded desc = .error e := by
   apply create_error_of_bad_entry key (.bytes b) (mem_withNetwork hmem hn)
   intro ty d hr
-  obtain ⟨f, bty, n, k, hcl, hslot, hfind, hmap, hlen⟩ := hsdk ty d hr
+  obtain ⟨f, bty, n, k, hcl, hslot, hfind, hmap, hov, hlen⟩ := hsdk ty d hr
   apply stepEntry_coerce_error (e0 := .badLength (sdkSize cfg k) b.length) hk hcl
   rw [hslot, coerce_bytes_eq]
   have : (sdkSize cfg k == b.length) = false := by simpa using hlen
-  simp only [coerceAtom, if_true, ruleOf, hfind, hmap, sdkBytesOf, this, Bool.false_eq_true, if_false]
+  simp only [coerceAtom, if_true, ruleOf, hfind, hmap, hov, sdkBytesOf, this, Bool.false_eq_true, if_false]
+
+/-! ### type-rule overrides (`TransactionFactory(network, type_rule_overrides)`) -/
+
+/-- **An override takes precedence over the built-in rule**, for every descriptor value (lists and dicts included):
+    for a member (or array element) of a named integer type `ty` whose module class has an override `f`, the converted
+    value is `f` applied to the descriptor value as it is — no range check, no class check — passed through the type
+    converter (`applyOverride`: `settle (f dv)`). -/
+theorem override_takes_precedence {cfg : Config} {top : Bool} {ty : String} {w : Nat} {sg : Bool} {f : Conv}
+    (hfind : cfg.schema.find ty = some (.int w sg)) (hov : cfg.overrides (.module ty) = some f) (dv : DVal) :
+    coerce cfg top true (.ty ty) dv = applyOverride cfg top (.ty ty) f dv :=
+  coerce_of_override (by simp [ruleOf, hfind, hov]) dv
+
+/-- … and for a byte-array type `ty` of `sdk_type_mapping` the override of the mapped SDK class `k` replaces the hex /
+    base32 / bytes / SDK-object parser (one override for `PublicKey` serves `PublicKey` and `VotingPublicKey` members,
+    one for `Address` serves `Address` and `UnresolvedAddress`). -/
+theorem override_takes_precedence_sdk {cfg : Config} {top : Bool} {ty k : String} {n : Nat} {f : Conv}
+    (hfind : cfg.schema.find ty = some (.bytes n)) (hmap : cfg.sdkMapping.find? (·.1 == ty) = some (ty, k))
+    (hov : cfg.overrides (.sdk k) = some f) (dv : DVal) :
+    coerce cfg top true (.ty ty) dv = applyOverride cfg top (.ty ty) f dv :=
+  coerce_of_override (by simp [ruleOf, hfind, hmap, hov]) dv
+
+/-- an array whose element type has a registered array parser applies the element rule — hence the override — to every
+    element: the array parser was built from `rules[element]` after the override was installed -/
+theorem override_applies_to_array_elements {cfg : Config} {top : Bool} {elem : String} {f : Conv}
+    (hrule : ruleOf cfg (.ty elem) = .override f) (harr : cfg.arrayRules.contains elem = true) (dv : DVal) (rest : List DVal) :
+    coerce cfg top true (.array elem) (.list (dv :: rest)) =
+      match applyOverride cfg false (.ty elem) f dv with
+      | .error e => .error e
+      | .ok v =>
+        match coerceItems cfg true (.ty elem) rest with
+        | .error e => .error e
+        | .ok vs => .ok (.arr ((match v with | .arr _ => rawMark | w => w) :: vs)) := by
+  simp only [coerce, ruleOf, harr, if_true, Bool.and_true, coerceItems, coerce_of_override hrule]
+  cases applyOverride cfg false (.ty elem) f dv with
+  | error e => rfl
+  | ok v => cases coerceItems cfg true (.ty elem) rest <;> rfl
+
+/-- the override table with one more (or another) converter for class `c` -/
+def setOverride (cfg : Config) (c : ClassRef) (f : Conv) : Config :=
+  withOverrides cfg fun c' => if c' = c then some f else cfg.overrides c'
+
+/-- **An override only affects values of the named type.** Installing (or replacing) the override of class `c` does not
+    change the created transaction when converting the descriptor never consults the rule of `c` (`touchesEntries`: no
+    described member, array element or member of a nested dictionary is of a type whose parser `c`'s override replaces):
+    every other value is converted exactly as without the override, and everything `create` does afterwards is the same. -/
+theorem override_only_affects_named_type {p : Prims} {cfg : Config} {c : ClassRef} {f : Conv}
+    {autosort embedded : Bool} {desc : List (String × DVal)}
+    (h : ∀ ty d, resolve cfg embedded (withNetwork cfg desc) = .ok (ty, d) →
+      touchesEntries cfg c d true (withNetwork cfg desc) = false) :
+    create p (setOverride cfg c f) autosort embedded desc = create p cfg autosort embedded desc :=
+  create_agree (fun c' hc' => by simp [hc']) h
+
+/-- the same for a single member: a value that does not reach class `c` is converted as without the override -/
+theorem override_only_affects_named_type_value {cfg : Config} {c : ClassRef} {f : Conv} {top hinted : Bool} {slot : Slot}
+    {dv : DVal} (h : touches cfg c hinted slot dv = false) :
+    coerce (setOverride cfg c f) top hinted slot dv = coerce cfg top hinted slot dv :=
+  coerce_agree (fun c' hc' => by simp [hc']) dv top hinted slot h
+
+/-- **An override for a class no rule consults is ignored**: only `add_pod_parser` looks at the table, i.e. the named
+    integer types of the module and the SDK classes of `sdk_type_mapping`. An override keyed by an enum or flags class,
+    a struct class, a byte-array class of the module (`sc.Hash256` instead of `Hash256`) or anything else changes nothing,
+    for any descriptor. -/
+theorem override_for_unconsulted_class_ignored {p : Prims} {cfg : Config} {c : ClassRef} {f : Conv}
+    (hc : ∀ slot, overrideClass cfg slot ≠ some c) (autosort embedded : Bool) (desc : List (String × DVal)) :
+    create p (setOverride cfg c f) autosort embedded desc = create p cfg autosort embedded desc :=
+  override_only_affects_named_type (fun _ d _ => touchesEntries_unconsulted hc _ d true)
+
+/-- the classes that are consulted: a module class only if it is a named integer type, an SDK class only if some byte-array
+    type is mapped to it -/
+theorem overrideClass_some {cfg : Config} {slot : Slot} {c : ClassRef} (h : overrideClass cfg slot = some c) :
+    (∃ ty w sg, c = .module ty ∧ cfg.schema.find ty = some (.int w sg)) ∨
+    (∃ ty n k, c = .sdk k ∧ cfg.schema.find ty = some (.bytes n) ∧ (ty, k) ∈ cfg.sdkMapping) := by
+  cases slot with
+  | int w s => simp [overrideClass] at h
+  | barray => simp [overrideClass] at h
+  | array elem => simp [overrideClass] at h
+  | ty ty =>
+    simp only [overrideClass] at h
+    cases hf : cfg.schema.find ty with
+    | none => simp [hf] at h
+    | some td =>
+      cases td with
+      | int w sg =>
+        simp only [hf, Option.some.injEq] at h
+        exact Or.inl ⟨ty, w, sg, h.symm, hf⟩
+      | bytes n =>
+        simp only [hf] at h
+        cases hm : cfg.sdkMapping.find? (·.1 == ty) with
+        | none => simp [hm] at h
+        | some nk =>
+          obtain ⟨n', k⟩ := nk
+          simp only [hm, Option.map_some, Option.some.injEq] at h
+          have hmem := List.mem_of_find?_eq_some hm
+          have hn : n' = ty := by simpa using List.find?_some hm
+          exact Or.inr ⟨ty, n, k, h.symm, hf, hn ▸ hmem⟩
+      | enum w sg bw ms => simp [hf] at h
+      | struct d => simp [hf] at h
+
+/-- **`create_holds_described` with overrides**: in a dict descriptor, a described member whose type has an override `f`
+    carries `f(v)` — precisely `settle (f v)`: the override's result after the type converter; in particular, when the
+    override returns an object of the member's class, the member holds that object's state. -/
+theorem create_holds_override {p : Prims} {cfg : Config} (hS : schemaOk cfg.schema = true)
+    {autosort embedded : Bool} {desc : List (String × DVal)} {v : Val}
+    (h : create p cfg autosort embedded desc = .ok v) (hdict : (desc.map (·.1)).Nodup) :
+    ∃ ty d fresh vs,
+      resolve cfg embedded (withNetwork cfg desc) = .ok (ty, d) ∧ freshMembers cfg.schema ty = .ok fresh ∧
+      v = .struct ty vs ∧
+      ∀ key dv fld g, (key, dv) ∈ withNetwork cfg desc → key ≠ "type" → classify d key = .member fld →
+        ruleOf cfg (slotOf fld.kind) = .override g → computedAfter cfg fld.name = false →
+        ∃ r cv, g dv = .ok r ∧ settle cfg true (slotOf fld.kind) r = .ok cv ∧
+          (autosort = false ∨ isAtom (stored (Val.get fresh fld.name) cv) = true →
+            Val.get vs fld.name = some (stored (Val.get fresh fld.name) cv)) ∧
+          (∀ mty w, slotOf fld.kind = .ty mty → r = .codec mty w → cv = w) := by
+  obtain ⟨ty, d, fresh, vs, hr, hf, hv, hdesc⟩ := create_holds_described_dict hS h hdict
+  refine ⟨ty, d, fresh, vs, hr, hf, hv, ?_⟩
+  intro key dv fld g hmem hkey hcl hrule hca
+  obtain ⟨cv, hco, hval⟩ := hdesc key dv fld hmem hkey hcl hca
+  rw [coerce_of_override hrule] at hco
+  unfold applyOverride at hco
+  cases hg : g dv with
+  | error e => simp [hg] at hco
+  | ok r =>
+    simp only [hg] at hco
+    refine ⟨r, cv, rfl, hco, hval, ?_⟩
+    intro mty w hslot hr'
+    subst hr'
+    rw [hslot] at hco
+    simp [settle, convertPlace, convert, place, fits] at hco
+    exact hco.symm
+
+/-! ### the descriptor's own `network` entry -/
+
+/-- **`create` is a function of the factory and the descriptor, and the descriptor's `network` entry is no part of it**:
+    whatever the caller writes under `network` (or whether the key is there at all) the result is the same, because the
+    factory processes `{**descriptor, 'network': identifier}`. Together with `create_network_forced`: the value is
+    neither taken nor refused, it is replaced. (That the caller's dict is not modified and that one descriptor gives the
+    right network on two factories is a statement about Python object identity; the harness checks it on every call.) -/
+theorem create_ignores_described_network {p : Prims} {cfg : Config} (autosort embedded : Bool)
+    (desc : List (String × DVal)) (x : DVal) :
+    create p cfg autosort embedded (setKey desc "network" x) = create p cfg autosort embedded desc := by
+  unfold create build withNetwork
+  rw [setKey_setKey]
 
 /-! ### autosort -/
 
@@ -623,6 +783,31 @@ def symbolNonMembers : List Bool :=
     intMember (create examplePrims cfg true false [t, ("version", .int 300)]) "version" 300 ]
 
 example : symbolNonMembers.all id = true := by decide +kernel
+
+/-- factories built with `type_rule_overrides`: a constant override for `Amount` decides the fee whatever the descriptor
+    says and leaves a `Timestamp` member alone; a raising override refuses exactly the descriptors that describe an
+    `Amount`; an override keyed by an enum class is never consulted; an override for the SDK class `PublicKey` that
+    returns a `str` leaves that text, encoded, in the member (the SDK's own test
+    `test_can_create_known_transaction_with_multiple_overrides`) -/
+def overrideChecks : List Bool :=
+  let base := symbolConfig 152
+  let t := ("type", DVal.str "transfer_transaction_v1")
+  let cfgFee := setOverride base (.module "Amount") (fun _ => .ok (.codec "Amount" (.int 654321)))
+  let cfgRaise := setOverride base (.module "Amount") (fun _ => .error (.overrideRaised "no"))
+  let cfgEnum := setOverride base (.module "NetworkType") (fun _ => .error (.overrideRaised "no"))
+  let cfgKey := setOverride base (.sdk "PublicKey") (fun dv => match dv with
+    | .str s => .ok (.str (s ++ " PUBLICKEY"))
+    | other => .ok other)
+  [ intMember (create examplePrims cfgFee true false [t, ("fee", .str "whatever"), ("deadline", .int 5)]) "fee" 654321,
+    intMember (create examplePrims cfgFee true false [t, ("fee", .str "whatever"), ("deadline", .int 5)]) "deadline" 5,
+    rejected (create examplePrims cfgRaise true false [t, ("fee", .int 1)]),
+    !rejected (create examplePrims cfgRaise true false [t, ("deadline", .int 1)]),
+    intMember (create examplePrims cfgEnum true false [t]) "network" 152,
+    (match member? (create examplePrims cfgKey true false [t, ("signer_public_key", .str "signer_name")]) "signer_public_key" with
+     | some (.struct "<raw>" [("bytes", .bytes b)]) => b == ofString "signer_name PUBLICKEY"
+     | _ => false) ]
+
+example : overrideChecks.all id = true := by decide +kernel
 
 /-- nem testnet: nested dict, SDK address object converted to its text form, transfer message hack, no embedded entry
     point, misspelt key inside a nested dict -/
